@@ -1097,7 +1097,8 @@ def apply_spans_first(spans, src_array, dest_array=None):
 @exetera_njit
 def apply_spans_last(spans, src_array, dest_array=None):
     dest_array = np.zeros(len(spans) - 1, dtype=src_array.dtype) if dest_array is None else dest_array
-    spans = spans[1:]-1
+    # index in int64: numba types 'uint64 array - 1' as float64, which cannot subscript an array
+    spans = spans[1:].astype(np.int64) - 1
     dest_array[:] = src_array[spans]
     return dest_array
 
